@@ -438,6 +438,10 @@ func (u *Universe) Prelude(db *SpecDB) string {
 	b.WriteString("(declare-fun loc (Int Int) Int)\n(assert (forall ((o Int) (i Int)) (! (= (loc o i) (+ o i)) :pattern ((loc o i)))))\n")
 	b.WriteString("(declare-fun win ((Array Int Int) Int Int) (Array Int Int))\n")
 	b.WriteString("(assert (forall ((r (Array Int Int)) (o Int) (n Int) (i Int)) (! (= (select (win r o n) i) (ite (and (<= 0 i) (< i n)) (select r (loc o i)) 0)) :pattern ((select (win r o n) i)))))\n")
+	// b.cat: concatenation of byte strings (normalised: zero outside [0,len))
+	b.WriteString("(declare-fun b.cat (Bytes Bytes) Bytes)\n")
+	b.WriteString("(assert (forall ((x Bytes) (y Bytes)) (! (= (b.len (b.cat x y)) (+ (b.len x) (b.len y))) :pattern ((b.cat x y)))))\n")
+	b.WriteString("(assert (forall ((x Bytes) (y Bytes) (i Int)) (! (= (select (b.arr (b.cat x y)) i) (ite (and (<= 0 i) (< i (b.len x))) (select (b.arr x) i) (ite (and (<= (b.len x) i) (< i (+ (b.len x) (b.len y)))) (select (b.arr y) (- i (b.len x))) 0))) :pattern ((select (b.arr (b.cat x y)) i)))))\n")
 	var sorts []string
 	for s := range db.Sorts {
 		sorts = append(sorts, s)
@@ -472,6 +476,19 @@ func (u *Universe) Prelude(db *SpecDB) string {
 		b.WriteString(d + "\n")
 	}
 	return b.String()
+}
+
+// MapCard: cardinality of a key set (Array K Bool) as an uninterpreted function
+// with the two facts a finite-set cardinality satisfies: the empty set has
+// none, adding a new key adds one. (Built-in model of len(map); consistent for
+// arbitrary arrays: count relative to a fixed representative of the set's
+// class modulo finite differences.)
+func (u *Universe) MapCard(keySort string, set Term) Term {
+	f := "map.card." + sanitize(strings.NewReplacer(" ", "_", "(", "", ")", "").Replace(keySort))
+	u.Extra(fmt.Sprintf("(declare-fun %s ((Array %s Bool)) Int)", f, keySort))
+	u.Extra(fmt.Sprintf("(assert (= (%s ((as const (Array %s Bool)) false)) 0))", f, keySort))
+	u.Extra(fmt.Sprintf("(assert (forall ((S!c (Array %[2]s Bool)) (k!c %[2]s)) (! (=> (not (select S!c k!c)) (= (%[1]s (store S!c k!c true)) (+ (%[1]s S!c) 1))) :pattern ((%[1]s (store S!c k!c true))))))", f, keySort))
+	return fmt.Sprintf("(%s %s)", f, set)
 }
 
 // Extra registers an extra global declaration once.
